@@ -26,7 +26,8 @@ Next ==
   /\ LET e == Rec[l] IN
      CASE e.ev = "dimacs" -> Report("C16:header_wellformed", e.wellformed /\ HeaderOK(e.nv, e.nc, e.maxvar, e.nclauses))
        [] e.ev = "reply" -> LET v == Classify(e.lines) IN
-                            Report("C16:reply_" \o v[1], Conforms(v, Res(e)))
+                            /\ Report("C16:reply_" \o v[1], Conforms(v, Res(e)))
+                            /\ v[1] = "MustNotResult" => Report("C17:failed_reply_is_not_a_result", Conforms(v, Res(e)))
        [] e.ev = "volume" -> JudgeVolume(e)
        [] OTHER -> TRUE
 Spec == Init /\ [][Next]_l
